@@ -127,3 +127,13 @@ impl From<WriteStartCodePreset> for StartCodePreset {
         }
     }
 }
+
+/// Verification hook (feature `verif_hooks` only): read chunk size override from the environment.
+#[cfg(feature = "verif_hooks")]
+pub fn verif_chunk_size(var: &str, default: usize) -> usize {
+    std::env::var(var)
+        .ok()
+        .and_then(|v| v.parse::<usize>().ok())
+        .filter(|v| *v > 0)
+        .unwrap_or(default)
+}
